@@ -358,19 +358,21 @@ def _run_api(op, f):
         return pw_out(G(lambda: spk.spike_train_order_profile(L[0], L[1], **mt, **kw)))
     if op == 'order_profile_multi':
         return pw_out(G(lambda: spk.spike_train_order_profile(L, **mt, **ikw)))
+    # `interval` is accepted as a parameter by the order / directionality scalars but documented as
+    # unsupported (NotImplementedError -> 'reject'); it is passed only when the request carries one
     if op == 'order_bi':
         nz = bool(extra[0]) if extra else True
-        return [[G(lambda: spk.spike_train_order(L[0], L[1], normalize=nz, **mt, **kw))]]
+        return [[G(lambda: spk.spike_train_order(L[0], L[1], normalize=nz, **iv, **mt, **kw))]]
     if op == 'order_multi':
-        return [[G(lambda: spk.spike_train_order(L, **mt, **ikw))]]
+        return [[G(lambda: spk.spike_train_order(L, **iv, **mt, **ikw))]]
     if op == 'dir_values':
-        return [list(v) for v in G(lambda: spk.spike_directionality_values(L, **mt, **ikw))]
+        return [list(v) for v in G(lambda: spk.spike_directionality_values(L, **iv, **mt, **ikw))]
     if op == 'dir_bi':
         nz = bool(extra[0]) if extra else True
-        return [[G(lambda: spk.spike_directionality(L[0], L[1], normalize=nz, **mt, **kw))]]
+        return [[G(lambda: spk.spike_directionality(L[0], L[1], normalize=nz, **iv, **mt, **kw))]]
     if op == 'dir_matrix':
         nz = bool(extra[0]) if extra else True
-        return [list(r) for r in G(lambda: spk.spike_directionality_matrix(L, normalize=nz, **mt, **ikw))]
+        return [list(r) for r in G(lambda: spk.spike_directionality_matrix(L, normalize=nz, **iv, **mt, **ikw))]
     if op == 'isi_lengths':
         from pyspike.isi_lengths import isi_lengths
         t = L[0]
